@@ -180,7 +180,7 @@ def aHandlers (rec : Rec) (g : Arena) (k : Nat) (cs : StateDef Nat) (e : Event) 
 /-- target selection: the handler's answer, else the route scan (`none` = `return false`) -/
 def aSelect (rec : Rec) (g2 : Arena) (k : Nat) (e : Event) (hret : Int) :
     Arena × Option (StateId × Option Nat × Option Script) × ATrace :=
-  if hret = -1 then
+  if hret < 0 then
     match g2.curState k with
     | none => (g2, none, unm k)
     | some cs2 =>
@@ -256,6 +256,7 @@ def aCall (fix : Fix) : Nat → Rec
         let r := aStart fix (aCall fix f) s.1 k
         (r.1, r.2.1, s.2 ++ r.2.2)
     | .run e => aRun fix (aCall fix f) g k e
+    | .defn _ => (g, false, [])       -- no table of definition calls here: `dCall` (ArenaDef.lean)
 
 def fuelFor (g : Arena) : Nat := 2 * g.length + 4
 
